@@ -126,11 +126,11 @@ class CWMH(ProposalBasedSampler):
 
     def step(self):
         # Initialize x_t which is used to store the current CWMH sample
-        x_t = self.current_point.copy()
+        x_t = self.current_point.astype(float) # (a copy; components are assigned below, so never keep an integer dtype)
 
         # Initialize x_star which is used to store the proposed sample by
         # updating the current sample component-by-component
-        x_star = self.current_point.copy()
+        x_star = self.current_point.astype(float)
 
         # Propose a sample x_all_components from the proposal distribution
         # for all the components
